@@ -1,3 +1,6 @@
 import BalmProofs.Props.C12
 #print axioms Balm.AttrTest.exit_some
 #print axioms Balm.AttrTest.exit_none
+#print axioms Balm.Impl.mem_reachSet
+#print axioms Balm.Impl.attractors_sound
+#print axioms Balm.Impl.attractors_complete
